@@ -37,12 +37,31 @@ func summary(fr *frame, fn *ssa.Function, name string, args []value) (value, boo
 	if v, ok := timeSummary(fr, name, args); ok {
 		return v, true
 	}
+	if v, ok := blsSummary(fr, fn, name, args); ok {
+		return v, true
+	}
 	if name == "fmt.Sprintf" || name == "fmt.Errorf" || name == "fmt.Sprint" {
 		va := args[len(args)-1].([]value)
 		anySym := false
 		for _, x := range va {
 			if hasSym(x) {
 				anySym = true
+			}
+		}
+		if anySym && Params["FMT_CONCRETIZE"] == 1 {
+			// concretise-then-format: fork over the feasible values of every symbolic scalar operand
+			for k, x := range va {
+				if xi, ok := x.(iface); ok {
+					if sx, ok := xi.v.(sym); ok {
+						va[k] = iface{xi.t, EX.concretize(sx)}
+					}
+				}
+			}
+			anySym = false
+			for _, x := range va {
+				if hasSym(x) {
+					anySym = true
+				}
 			}
 		}
 		if anySym {
@@ -74,6 +93,43 @@ func summary(fr *frame, fn *ssa.Function, name string, args []value) (value, boo
 					}
 				}
 			}
+			sel := ms.Lookup(nil, "Unwrap")
+			if sel == nil {
+				return false, true
+			}
+			f := fr.i.prog.MethodValue(sel)
+			r := call(fr.i, fr, 0, f, []value{err.v})
+			next, ok := r.(iface)
+			if !ok {
+				return false, true
+			}
+			err = next
+		}
+		return false, true
+	}
+	if name == "errors.As" {
+		err, _ := args[0].(iface)
+		target, _ := args[1].(iface)
+		pt, ok := target.t.(*types.Pointer)
+		if !ok {
+			panic(targetPanic{"errors: target must be a non-nil pointer"})
+		}
+		T := pt.Elem()
+		cell := target.v.(*value)
+		for depth := 0; depth < 16; depth++ {
+			if err.t == nil {
+				return false, true
+			}
+			if it, isI := T.Underlying().(*types.Interface); isI {
+				if types.Implements(err.t, it) {
+					*cell = err
+					return true, true
+				}
+			} else if types.Identical(err.t, T) {
+				store(T, cell, err.v)
+				return true, true
+			}
+			ms := fr.i.prog.MethodSets.MethodSet(err.t)
 			sel := ms.Lookup(nil, "Unwrap")
 			if sel == nil {
 				return false, true
